@@ -101,6 +101,7 @@ def run_check(prop, tier, seed, replay=None):
             out_v.append((desc, rep, found))
     cov["known_findings_seen"] = sorted(set(known_seen))
 
+    out_v.sort(key=lambda v: not v[2])      # violations with a failing input on the real code first
     n = 0
     for desc, rep, found in out_v[:10]:
         n += 1
